@@ -770,13 +770,16 @@ impl<'a> Run<'a> {
             }
             // --- injected GSO failure: the transmit that triggers the fallback ---
             (Ok(()), Some(_), _) => {
-                self.sender_fell_back = true;
-                if !self.plan.api_send {
-                    self.out.inconclusive = Some("fault shim did not fail a UDP_SEGMENT sendmsg (not loaded?)".into());
-                    return;
+                // (a GSO failure alone must not switch the socket to the old-kernel fallback that
+                // strips ECN: `sender_fell_back` stays false)
+                // Ok from either entry point: the property demands that the datagrams arrive (as
+                // plain sends). Whether the shim really failed a UDP_SEGMENT sendmsg is checked
+                // from its statistics at the end of the lane.
+                if self.plan.api_send {
+                    self.out.cnt.inc("degrade.trigger_via_send");
+                } else {
+                    self.out.cnt.inc("degrade.trigger_ok_from_try_send");
                 }
-                // `send` said Ok: the property demands that the datagrams arrive (as plain sends)
-                self.out.cnt.inc("degrade.trigger_via_send");
             }
             (Err(e), Some(errno), _) if e.raw_os_error() == Some(errno) && !self.plan.api_send => {
                 // try_send reported the failure to its caller: nothing was sent, nothing is expected
